@@ -180,6 +180,41 @@ def m_C01(run):
             if rr is not None and rr < cause_round and v.startswith("ok") and o not in hs:
                 f.append("op %d returned %s in round %d, before the stop cause (round %d) of actor %d, "
                          "but was not handled before on_stop" % (o, v, rr + 1, cause_round + 1, a))
+    f += skipped_in_queue(run)
+    return f
+
+
+def skipped_in_queue(run, order_too=False):
+    """o2 was still pending at the end of a round in which a later-begun o3 to the same actor was already
+    accepted (a tell that returned Ok, or a handler entry).  tokio's channel and its permit queue are
+    FIFO, so o2 was accepted before o3: if o3's handler was entered, o2's must have been entered
+    before it - whatever became of o2's caller afterwards (timeout, cancellation)."""
+    f = []
+    L = run.last()
+    if L < 0 or run.realtime:
+        return f
+    for a in range(run.nact):
+        final = he_of(run.ev(L, a))
+        ops_a = [(o, m) for o, m in run.ops.items()
+                 if m["target"] == a and not m["hook"] and m["round"] is not None and m["kind"] in ("tell", "ask")]
+        for o3, m3 in ops_a:
+            if o3 not in final:
+                continue
+            for o2, m2 in ops_a:
+                if m2["round"] >= m3["round"]:
+                    continue
+                ahead = False
+                for r in range(m3["round"], len(run.rounds)):
+                    acc3 = (m3["kind"] == "tell" and run.res(r, o3) == "ok0") or o3 in he_of(run.ev(r, a))
+                    if acc3:
+                        ahead = run.res(r, o2) == "pending"
+                        break
+                if not ahead:
+                    continue
+                if o2 not in final:
+                    f.append("op %d was queued ahead of op %d at actor %d, %d was handled and %d never was" % (o2, o3, a, o3, o2))
+                elif order_too and final.index(o2) > final.index(o3):
+                    f.append("op %d was queued ahead of op %d at actor %d but handled after it" % (o2, o3, a))
     return f
 
 
@@ -437,6 +472,22 @@ def m_C07(run):
             dropped = a in run.drop_rounds and run.drop_rounds[a] <= st_round
             if not stopped and not dropped and up_before == "1":
                 f.append("actor %d ran on_stop(false) in round %d with references alive and no stop()" % (a, st_round + 1))
+    # stop() returned Ok while the mailbox was open: the marker is queued, so at the final quiescent
+    # point the actor must have entered on_stop (or be inside a hook, or have ended some other way)
+    if not run.realtime:
+        for o, m in run.ops.items():
+            if m["kind"] != "stop" or m["target"] is None or m["hook"]:
+                continue
+            a = m["target"]
+            rr, v = run.result_round(o)
+            if rr is None or v != "ok0":
+                continue
+            then = run.ev(rr, a)
+            if tok(run.aline(rr, a), "join=") != "running" or "ST0" in then or "ST1" in then:
+                continue
+            evs = run.ev(L, a)
+            if tok(run.aline(L, a), "join=") == "running" and "ST0" not in evs and "ST1" not in evs and not in_hook(evs):
+                f.append("stop() %d returned Ok in round %d but actor %d is idle and still running at the end" % (o, rr + 1, a))
     return f
 
 
@@ -472,12 +523,14 @@ def m_C09(run, mon_text=""):
             for o, m in run.ops.items():
                 if m["target"] == a and m["kind"] in ("tell", "stop") and not m["hook"]:
                     v = run.res(r, o)
-                    if v == "ok0" and o not in hs and m["kind"] == "tell":
+                    if v == "ok0" and (o not in hs or m["kind"] == "stop"):
+                        # a tell not yet handled, or a stop() that returned Ok on an open mailbox whose
+                        # marker has not been taken (taking it enters on_stop at once)
                         join = tok(run.aline(r, a), "join=")
                         if join == "running" and "ST0" not in run.ev(r, a) and "ST1" not in run.ev(r, a):
                             waiting += 1
             if waiting > run.caps[a]:
-                f.append("round %d: %d tells accepted and not yet taken by actor %d whose capacity is %d" % (r + 1, waiting, a, run.caps[a]))
+                f.append("round %d: %d tells/stops accepted and not yet taken by actor %d whose capacity is %d" % (r + 1, waiting, a, run.caps[a]))
                 return f
     return f
 
